@@ -170,9 +170,6 @@ def validate_traces(specdir, trace_module, cfg, lines, timeout=900, invariants_o
         shutil.rmtree(tmp, ignore_errors=True)
     if r["ok"]:
         return True, None, r
-    if r["reject_line"] is not None:
-        # high-water mark = index (1-based) of the first line never consumed
-        return False, r["reject_line"] - 1, r
     if r["invariant"]:
         # invariant violated in the state reached after consuming line l-1 ; find l from the printed state
         ml = None
@@ -180,6 +177,9 @@ def validate_traces(specdir, trace_module, cfg, lines, timeout=900, invariants_o
             pass
         if ml:
             return False, int(ml.group(1)) - 2, r
+    if r["reject_line"] is not None and r["reject_line"] >= 1:
+        # high-water mark = index (1-based) of the first line never consumed
+        return False, r["reject_line"] - 1, r
     raise Broken("trace validation: TLC failed for a reason other than rejection (rc=%s):\n%s" % (r["rc"], r["out"][-3000:]))
 
 
